@@ -866,7 +866,7 @@ class Abstractor:
         if z3.is_rational_value(d):
             return d.as_fraction() == 0
         den = [q != 0 for q in denominators([u, v])]
-        if s.qtime > s.budget:
+        if s.qtime > (15.0 if TRIAGE['violations'] >= 3 and TRIAGE['spent_undischarged_s'] > 240 else s.budget):
             # the time budget of this abstraction for argument-equality questions is used up (only seen on code whose arguments
             # no longer match the contract's): not merging is always sound - it can only leave the final question harder
             s.skipped = getattr(s, 'skipped', 0) + 1
@@ -1081,6 +1081,7 @@ QLOG = []
 Z3V = 'z3 ' + z3.get_version_string()
 
 
+TRIAGE = dict(violations=0, spent_undischarged_s=0.0)
 ABS_MAX = [0.0]          # largest time one abstraction spent on argument-equality questions (budget: Abstractor.budget)
 THOROUGH = os.environ.get('VERIF_TIER') == 'thorough'
 RECHECK = {}
@@ -1111,6 +1112,11 @@ def _cvc5_check(solver_assertions, timeout_ms):
 def prove(goal, hyps=(), timeout=60000, rounds=2, use_axioms=True, cvc5=True, extra=()):
     """ladder: goal alone -> + hyps -> + axiom instances; first unsat discharges.  Returns a result dict."""
     t0 = time.time()
+    if TRIAGE['violations'] >= 3 and TRIAGE['spent_undischarged_s'] > 240:
+        # the property is already reported violated several times and minutes have gone into queries that did not discharge:
+        # the remaining queries get a short budget (an undischarged obligation stays undischarged; nothing is discharged by this)
+        timeout = min(timeout, 5000)
+        cvc5 = False
     last = None
     den = [q != 0 for q in denominators([goal] + list(hyps))]
     stages = [((), False), (tuple(hyps), False)]
@@ -1124,7 +1130,7 @@ def prove(goal, hyps=(), timeout=60000, rounds=2, use_axioms=True, cvc5=True, ex
             A += axioms(list(H) + [goal], rounds=rounds)
         A.append(z3.Not(goal))
         s.add(*A)
-        r = zcheck(s, timeout if final else min(timeout, 4000), want_model=final)
+        r = zcheck(s, timeout if final else min(timeout, 4000, 1500 if (TRIAGE['violations'] >= 3 and TRIAGE['spent_undischarged_s'] > 240) else 4000), want_model=final)
         last = (r, s, A, LAST_MODEL[0])
         QLOG.append(dict(stage=stage, result=str(r), ms=round(1000 * (time.time() - t0))))
         if r == z3.unsat:
@@ -1149,6 +1155,7 @@ def prove(goal, hyps=(), timeout=60000, rounds=2, use_axioms=True, cvc5=True, ex
         QLOG.append(dict(stage='cvc5', result=r2, ms=round(1000 * (time.time() - t0))))
         if r2 == 'unsat':
             return dict(result='discharged', stage='cvc5', ms=round(1000 * (time.time() - t0)), backend='cvc5 1.0.3 (after z3 unknown)')
+    TRIAGE['spent_undischarged_s'] += time.time() - t0
     return dict(result=str(r), stage=len(stages) - 1, ms=round(1000 * (time.time() - t0)), backend=Z3V, model=model)
 
 
@@ -1170,7 +1177,7 @@ def prove_eq(code, spec, hyps=(), timeout=60000, abstract=True, tol=None):
     ABS_MAX[0] = max(ABS_MAX[0], A.qtime)
     if differ:
         res['fingerprints_differ'] = True
-    if res['result'] != 'discharged' and not differ:
+    if res['result'] != 'discharged' and not differ and not (TRIAGE['violations'] >= 3 and TRIAGE['spent_undischarged_s'] > 240):
         # retry with raw (non-abstracted) axiom instances
         res2 = prove((code == spec) if tol is None else z3.And(code - spec <= tol, spec - code <= tol), hyps, min(timeout, 20000))
         if res2['result'] == 'discharged':
